@@ -84,6 +84,17 @@ def showRow (r : Row) : String := "(" ++ ",".intercalate (r.map showVal) ++ ")"
 def jRows (j : Json) : Except String Table := do
   (← j.getArr?).toList.mapM fun r => do (← r.getArr?).toList.mapM jVal
 
+partial def jDT (j : Json) : Except String DT := do
+  let a ← j.getArr?
+  if h : a.size = 2 then
+    match (← a[0].getStr?) with
+    | "o" => return .opnd (← a[1].getNat?)
+    | "p" => return .paren (← jDT a[1])
+    | _ => throw "dt"
+  else if h3 : a.size = 3 then
+    return .div (← jDT a[1]) (← jDT a[2])
+  else throw "dt"
+
 def handle (line : String) : Except String String := do
   let j ← Json.parse line
   let op ← (← j.getObjVal? "op").getStr?
@@ -128,6 +139,13 @@ def handle (line : String) : Except String String := do
     let off ← (← j.getObjVal? "offset").getNat?
     let sorted := sortBy keys rows
     return " ".intercalate ((limitOffset (lim.map Int.toNat) off sorted).map showRow)
+  | "divtree" =>
+    let n := parseDiv (← (← j.getObjVal? "st").getBool?) (← (← j.getObjVal? "ss").getBool?)
+    let dt ← (← j.getObjVal? "dt").getBool?
+    let ds ← (← j.getObjVal? "ds").getBool?
+    let anns ← (← (← j.getObjVal? "anns").getArr?).toList.mapM jAnn
+    let t ← jDT (← j.getObjVal? "tree")
+    return showCEx (genT dt ds n (fun i => anns.getD i .none) t)
   | "hoist" =>
     let taken ← (← (← j.getObjVal? "taken").getArr?).toList.mapM (·.getStr?)
     let k ← (← j.getObjVal? "k").getNat?
